@@ -155,6 +155,83 @@ theorem src_logit_inverse_logJ_neg (lo hi e : ℝ) (he : e ≠ 0) (y : ℝ) (hlt
   rw [hu, logit1_clip_id e _ h1 h2, logit_sigmoid_logJ]
   ring
 
+/-! ### the C04 statements for the translated source, rows of any dimension -/
+
+
+/-- one coordinate: inside the clipping margin the source's logit stage followed by its inverse is the identity -/
+theorem logit_coord_round_trip (lo hi e v : ℝ) (hlt : lo < hi) (he : 0 < e)
+    (h1 : e ≤ (v - lo) / (hi - lo)) (h2 : (v - lo) / (hi - lo) ≤ 1 - e) :
+    (hi - lo) * (sigmoid1 (logit1 (some e) ((v - lo) / (hi - lo))).1).1 + lo = v := by
+  have hd : hi - lo ≠ 0 := sub_ne_zero.mpr hlt.ne'
+  rw [logit1_clip_id e _ h1 h2, sigmoid_logit_none _ (by linarith) (by linarith)]
+  field_simp
+  ring
+
+/-- admissible row: every coordinate strictly inside its bounds, outside the clipping margin -/
+def AdmRow (e : ℝ) : List ℝ → List ℝ → List ℝ → Prop
+  | l :: ls, h :: hs, v :: vs => l < h ∧ e ≤ (v - l) / (h - l) ∧ (v - l) / (h - l) ≤ 1 - e ∧ AdmRow e ls hs vs
+  | [], [], [] => True
+  | _, _, _ => False
+
+/-- **round trip of the translated source** (`LogitTransform.inverse(LogitTransform.forward(x)) = x`), for a row of any dimension,
+    with the derived fields as `BoundedTransform.__init__` computes them -/
+theorem src_logit_round_trip (e : ℝ) (he : 0 < e) (lo hi x : List ℝ) (h : AdmRow e lo hi x) :
+    (Gen.logit_inverse lo hi (Gen.bounded_init lo hi).1 (Gen.bounded_init lo hi).2 e
+      (Gen.logit_forward lo hi (Gen.bounded_init lo hi).1 (Gen.bounded_init lo hi).2 e x).1).1 = x := by
+  rw [tie_logit_inverse, tie_logit_forward _ _ _ _ _ he.ne', tie_bounded_init]
+  simp only
+  induction lo generalizing hi x with
+  | nil =>
+    cases hi <;> cases x <;> simp_all [AdmRow, Gen.map3]
+  | cons l ls ih =>
+    cases hi with
+    | nil => cases x <;> simp [AdmRow] at h
+    | cons hh hs =>
+      cases x with
+      | nil => simp [AdmRow] at h
+      | cons v vs =>
+        obtain ⟨hlt, h1, h2, hrest⟩ := h
+        simp only [List.zipWith_cons_cons, Gen.map3, List.map_cons, List.cons.injEq]
+        exact ⟨logit_coord_round_trip l hh e v hlt he h1 h2, ih hs vs hrest⟩
+
+example : AdmRow 0.25 [0, 1] [1, 3] [0.5, 2] := by
+  simp only [AdmRow]; norm_num
+
+
+
+theorem logit_coord_logJ (e u : ℝ) (he : 0 < e) (h1 : e ≤ u) (h2 : u ≤ 1 - e) :
+    (sigmoid1 (logit1 (some e) u).1).2 = -(logit1 (some e) u).2 := by
+  rw [logit1_clip_id e u h1 h2]
+  have h := logit_sigmoid_logJ (logit1 none u).1
+  rw [sigmoid_logit_none u (by linarith) (by linarith)] at h
+  linarith
+
+theorem sum_logJ (e : ℝ) (he : 0 < e) (lo hi x : List ℝ) (h : AdmRow e lo hi x) :
+    sumL ((Gen.map3 (fun d l v => (logit1 (some e) ((v - l) / d)).1) (List.zipWith (fun l h => h - l) lo hi) lo x).map fun v => (sigmoid1 v).2)
+      = -sumL (Gen.map3 (fun d l v => (logit1 (some e) ((v - l) / d)).2) (List.zipWith (fun l h => h - l) lo hi) lo x) := by
+  induction lo generalizing hi x with
+  | nil => cases hi <;> cases x <;> simp_all [AdmRow, Gen.map3, sumL]
+  | cons l ls ih =>
+    cases hi with
+    | nil => cases x <;> simp [AdmRow] at h
+    | cons hh hs =>
+      cases x with
+      | nil => simp [AdmRow] at h
+      | cons v vs =>
+        obtain ⟨hlt, h1, h2, hrest⟩ := h
+        simp only [List.zipWith_cons_cons, Gen.map3, List.map_cons, sumL]
+        rw [ih hs vs hrest, logit_coord_logJ e _ he h1 h2]
+        ring
+
+theorem src_logit_inverse_logJ_neg_row (e : ℝ) (he : 0 < e) (lo hi x : List ℝ) (h : AdmRow e lo hi x) :
+    (Gen.logit_inverse lo hi (Gen.bounded_init lo hi).1 (Gen.bounded_init lo hi).2 e
+      (Gen.logit_forward lo hi (Gen.bounded_init lo hi).1 (Gen.bounded_init lo hi).2 e x).1).2
+    = -(Gen.logit_forward lo hi (Gen.bounded_init lo hi).1 (Gen.bounded_init lo hi).2 e x).2 := by
+  rw [tie_logit_inverse, tie_logit_forward _ _ _ _ _ he.ne', tie_bounded_init]
+  simp only
+  rw [sum_logJ e he lo hi x h]
+  ring
+
 example : (0.25 : ℝ) ≠ 0 := by norm_num
 
 end C04
